@@ -136,9 +136,10 @@ class Sys05(e1.System):
         with warnings.catch_warnings():
             warnings.simplefilter('ignore')
             for s in inst:
-                T[s] = observe.api_transcript(wn.Wordnet(lexicon=s, expand=''), self.reltypes)
+                T[s] = observe.api_transcript(wn.Wordnet(lexicon=s, expand=''), self.reltypes, forms=universe.FORMS)
             if inst:
-                T['*'] = observe.api_transcript(wn.Wordnet(lexicon=' '.join(inst), expand=''), self.reltypes)
+                T['*'] = observe.api_transcript(wn.Wordnet(lexicon=' '.join(inst), expand=''), self.reltypes,
+                                                forms=universe.FORMS)
         env.close_pool()
         return {'C': C, 'T': T}
 
